@@ -100,7 +100,10 @@ func HarnessC12Views() {
 			st.Aggregation = AggregationExplicitBucketHistogram{Boundaries: []float64{0, 10}}
 		}
 		if k.filt {
-			st.AttributeFilter = attribute.NewAllowKeysFilter("k")
+			// (the caller's key slice is changed afterwards: the filter must not alias it)
+			fk := []attribute.Key{"k"}
+			st.AttributeFilter = attribute.NewAllowKeysFilter(fk...)
+			fk[0] = "x"
 		}
 		views = append(views, NewView(crit, st))
 		chosen = append(chosen, k)
@@ -153,6 +156,14 @@ func HarnessC12Views() {
 	if !matched {
 		ident = append(ident, sk{"c", false, false})
 	}
+	// when the only matching views are attribute-filter views, every reported
+	// point carries exactly the kept key
+	onlyFilterViews := matched
+	for _, k := range chosen {
+		if !k.miss && !k.filt {
+			onlyFilterViews = false
+		}
+	}
 	var expect []sk
 	for _, e := range ident {
 		if !e.drop {
@@ -168,6 +179,12 @@ func HarnessC12Views() {
 			vndAssert(total == want, "every-stream-carries-every-measurement-exactly-once")
 			vndAssert(points <= len(pipeSets), "no-more-points-than-attribute-sets")
 			_, isHist := m.Data.(metricdata.Histogram[int64])
+			if sum, ok := m.Data.(metricdata.Sum[int64]); ok && onlyFilterViews {
+				for _, p := range sum.DataPoints {
+					_, hasK := p.Attributes.Value("k")
+					vndAssert(p.Attributes.Len() == 1 && hasK, "measurement-reported-under-its-filtered-attribute-set")
+				}
+			}
 			found := false
 			for _, e := range expect {
 				if e.name == strings.ToLower(m.Name) && e.hist == isHist {
